@@ -43,6 +43,7 @@ theorem att_mono (s : State) (st : Step) (c sid : Nat) (hst : ∀ c', st ≠ .cC
   | ioComplete x => exact att_doComplete _ _ _ _ h
   | ioFail x => exact att_doFail _ _ _ _ h
   | ioPeerClose x => exact att_doPeerClose _ _ _ _ h
+  | timerClose x => exact att_doFail _ _ _ _ h
   | ioStep => exact att_doIoStep _ _ _ h
   | fence => exact att_doFence _ _ _ h
 
